@@ -14,7 +14,7 @@ impl Drop for ffi::Obj {
 }
 #[diplomat::bridge]
 pub mod ffi {
-    use diplomat_runtime::{DiplomatOwnedSlice, DiplomatOption};
+    use diplomat_runtime::{DiplomatOwnedSlice, DiplomatOption, DiplomatWrite};
     #[diplomat::opaque]
     pub struct Obj(pub u64);
     pub struct Holder {
@@ -24,6 +24,7 @@ pub mod ffi {
     impl Obj {
         pub fn make(id: u64) -> Box<Obj> { Box::new(Obj(id)) }
         pub fn get(&self) -> u64 { self.0 }
+        pub fn describe(&self, times: u8, w: &mut DiplomatWrite) { use core::fmt::Write as _; for _ in 0..times { let _ = write!(w, "obj{};", self.0); } }
         pub fn make_result(id: u64, ok: bool) -> Result<Box<Obj>, Box<Obj>> { if ok { Ok(Box::new(Obj(id))) } else { Err(Box::new(Obj(id))) } }
         pub fn make_opt(id: u64, some: bool) -> Option<Box<Obj>> { if some { Some(Box::new(Obj(id))) } else { None } }
         pub fn take_slice(x: Box<[u8]>) -> usize { x.len() }
@@ -41,7 +42,7 @@ def history(rng, n):
     """list of ops; objects are p1..p12 (Trace_Ownership's payload names)"""
     live, ops, nxt = [], [], 1
     for _ in range(n):
-        c = rng.randrange(11)
+        c = rng.randrange(12)
         if c <= 1 and nxt <= 12:
             ops.append(("make", nxt)); live.append(nxt); nxt += 1
         elif c == 2 and nxt <= 12:
@@ -66,6 +67,9 @@ def history(rng, n):
             ops.append(("call_cb", rng.choice([0, 1, 3])))
         elif c == 10:
             ops.append(("take_str", rng.choice([0, 4])))
+        elif c == 11 and live:
+            # a Rust-owned write buffer: created (capacity 0 is what most runtimes pass), written into, read, destroyed
+            ops.append(("describe", rng.choice(live), rng.choice([0, 0, 1, 16]), rng.choice([0, 1, 5])))
     for p in live:
         ops.append(("destroy", p))
     return ops
@@ -108,6 +112,11 @@ def c_driver(ops):
                 L.append("    { %s Holder_option h; h.ok.data.data = b; h.ok.data.len = %d; h.ok.tag = 2; h.is_ok = true; Obj_take_opt_holder(h); }\n" % (alloc, n))
             else:
                 L.append("    { Holder_option h; memset(&h, 0, sizeof h); h.is_ok = false; if (Obj_take_opt_holder(h) != 99) dv_log(\"Bad\", \"holder\", \"none\"); }\n")
+        elif k == "describe":
+            L.append("    { DiplomatWrite* w = diplomat_buffer_write_create(%d); Obj_describe(o[%d], %d, w); "
+                     "size_t n_ = diplomat_buffer_write_len(w); char* b_ = diplomat_buffer_write_get_bytes(w); "
+                     "if (n_ %% 1 != 0 || (n_ && b_[0] != 'o')) dv_log(\"Bad\", \"write\", \"content\"); "
+                     "diplomat_buffer_write_destroy(w); dv_log(\"BorrowCall\", \"p%d\", \"\"); }\n" % (op[2], op[1], op[3], op[1]))
         elif k == "peek_opt":
             L.append("    Obj_peek_opt(%s);\n" % ("o[%d]" % op[1] if op[1] else "NULL"))
         elif k == "call_cb":
